@@ -129,7 +129,30 @@ def c14():
         "case = (operation, dense content, arguments); non-trivial = every claimed case", A_REGIME, t.s())
 
 
+def _misc_check(prop, mc, n_quick, n_thorough, text, rule, assumptions):
+    def run():
+        t = Timer()
+        res = runner.Result(prop)
+        runner.model_stage(res, prop, "misc", mc, strict=False)
+        runner.trace_stage(res, prop, "misc", "drivers_rl", "Trace_Misc", n_quick if Q else n_thorough)
+        return runner.finish(res, text, rule, assumptions, t.s())
+    return run
+
+
 CHECKS = {
+    "C13": _misc_check("C13", "MC_Bit", 4000, 40000,
+        "Level A: a packed array denotes its sequence of b-bit digits (opaque values; 32-bit digits as <<hi16, lo16>> pairs, windows compared digit-wise). Level M: "
+        "registers as vectors of 64/b digit slots, packing by strided placement, (register, slot) addressing, window assembly from this and the next register; "
+        "TLC checks MechEqualsAbs for every b, lengths around every register boundary and three content patterns, and enumerates unpack / get / getlist / "
+        "sliding_window cases (every window size, every position) that are executed against the real BitArray; a seeded driver adds random contents, input "
+        "dtypes, long arrays, consecutive / descending / scattered position lists and repeated calls on the same object, judged by TLC (Trace_Misc).",
+        "case = (operation, b, digits, argument); non-trivial = every case", ["values fit in b bits (the property's precondition)", "positions in range"]),
+    "C18": _misc_check("C18", "MC_DC", 4000, 40000,
+        "Level A: a table is a record of equally long columns (1-D and 2-D); construction is refused iff lengths differ; indexing / iteration / concatenation / "
+        "equality / projection act on every column with the same selector (AlignedLemma on the model); VarLenArray concatenation right-aligns and zero-pads. TLC "
+        "enumerates 1..3 fields x lengths x the selector grid x object lists; every state is executed against dynamically created npdataclass classes; a seeded "
+        "driver adds longer tables and more objects, judged by TLC (Trace_Misc).",
+        "case = (operation, table(s), argument); non-trivial = every claimed case", ["integer columns; field names a, b, c"]),
     "C14": c14,
     "C15": _rl_check("C15", False, 4000, 40000, "Indexing equals indexing the dense array: integers, lists, dense and run-length boolean masks, every slice incl. out-of-range bounds and negative steps, start/stop windows."),
     "C16": _rl_check("C16", True, 4000, 40000, "Arithmetic equals arithmetic on the dense arrays: unary, two run-length operands with unrelated run boundaries, scalars on either side, reductions, histogram (oracle = numpy on the decoded array), concatenation; operands unchanged."),
